@@ -372,3 +372,14 @@ func (c *Ctl) TrailingAny(subs ...string) int {
 	}
 	return n
 }
+
+// CountPrefix counts the choices taken so far whose label starts with prefix.
+func (c *Ctl) CountPrefix(prefix string) int {
+	n := 0
+	for _, ch := range c.Choices {
+		if strings.HasPrefix(ch.L, prefix) {
+			n++
+		}
+	}
+	return n
+}
